@@ -43,6 +43,8 @@ type HarnessReport struct {
 	Budget         string           `json:"budget_exceeded,omitempty"`
 	Samples        [][]InputVal     `json:"-"`
 	Confirmed      int              `json:"violations_replayed_natively"`
+	SelfTestsRun   int              `json:"translator_selftest_paths_compared_with_native_run"`
+	SelfTestsOK    int              `json:"translator_selftest_paths_agreeing"`
 	SolverErrors   int              `json:"solver_error_lines"`
 }
 
@@ -253,6 +255,71 @@ func (r *Report) classify(P *Program, hs HarnessSpec, ex *Explorer, hr *HarnessR
 		}
 	}
 	return exit
+}
+
+// selfTest compares, for a few completed sample paths, the values the harness observed in the engine
+// (evaluated under the path's model) with what the native build observes on the same inputs.
+func (r *Report) selfTest(hs HarnessSpec, ex *Explorer, hr *HarnessReport, vd, repo string, knownIDs map[string]bool) int {
+	exit := 0
+	var activeKnown []string
+	for id := range knownIDs {
+		activeKnown = append(activeKnown, id)
+	}
+	sort.Strings(activeKnown)
+	for i, st := range ex.selfTests {
+		var vals []InputVal
+		for _, in := range st.Inputs {
+			if strings.HasPrefix(in.Tag, "dict.") || strings.HasPrefix(in.Tag, "rand.") {
+				continue
+			}
+			vals = append(vals, in)
+		}
+		rv := &ReplayVector{Property: r.Prop, Harness: hs.Name, Pkg: hs.Pkg, Kind: "selftest", Label: "translator self-test", Values: vals, Dict: st.Dict, Params: hr.Params, Known: activeKnown}
+		data, _ := json.MarshalIndent(rv, "", " ")
+		dir := filepath.Join(vd, "replays", r.Prop)
+		os.MkdirAll(dir, 0o755)
+		path := filepath.Join(dir, fmt.Sprintf("%s-selftest%d.json", hs.Name, i))
+		os.WriteFile(path, data, 0o644)
+		outcome, out := nativeReplay(vd, repo, hs, path)
+		hr.SelfTestsRun++
+		var got []ObsVal
+		for _, line := range strings.Split(out, "\n") {
+			if j := strings.Index(line, "VERIF-OBS "); j >= 0 {
+				json.Unmarshal([]byte(line[j+len("VERIF-OBS "):]), &got)
+			}
+		}
+		ok := outcome == "pass" && len(got) == len(st.Obs)
+		if ok {
+			for k := range got {
+				if got[k].Tag != st.Obs[k].Tag || len(got[k].Vals) != len(st.Obs[k].Vals) {
+					ok = false
+					break
+				}
+				for q := range got[k].Vals {
+					if got[k].Vals[q] != st.Obs[k].Vals[q] {
+						ok = false
+					}
+				}
+			}
+		}
+		if ok {
+			hr.SelfTestsOK++
+			os.Remove(path)
+			continue
+		}
+		want, _ := json.Marshal(st.Obs)
+		have, _ := json.Marshal(got)
+		r.Inconclusive = append(r.Inconclusive, fmt.Sprintf("%s: SELFTEST-MISMATCH (engine and native build disagree on a completed path; native outcome %s): %s engine=%s native=%s", hs.Name, outcome, path, trunc(string(want), 300), trunc(string(have), 300)))
+		exit = 2
+	}
+	return exit
+}
+
+func trunc(s string, n int) string {
+	if len(s) > n {
+		return s[:n] + "…"
+	}
+	return s
 }
 
 func tail(s string, n int) string {
